@@ -6,7 +6,7 @@
    harness, not expressible here.  Axioms reached: those of the standard library's real numbers (see Print
    Assumptions below): ClassicalDedekindReals.sig_forall_dec, sig_not_dec, FunctionalExtensionality.functional_extensionality_dep. *)
 From Coq Require Import QArith Reals Lra.
-From PsdV Require Import Blend.Num Blend.Model Blend.Spec Blend.ProofsR Blend.ProofsNS Blend.Refine Blend.RefineNS.
+From PsdV Require Import Blend.Num Blend.Model Blend.Spec Blend.ProofsR Blend.ProofsNS Blend.ProofsClip Blend.Refine Blend.RefineNS.
 Open Scope R_scope.
 
 (* ================================================================= separable modes: range *)
@@ -159,9 +159,26 @@ Theorem formula_color_luminosity_without_clipping : forall cb cs : rgb NR,
   (unit3 (map3 NR (fun v => v + (lum NR cs - lum NR cb)) cb) -> luminosity_rgb NR cb cs = s_luminosity cb cs).
 Proof. intros. split; [apply formula_color_noclip | apply formula_luminosity_noclip]. Qed.
 Print Assumptions formula_color_luminosity_without_clipping.
-(* hue / saturation / the clipping cases of color / luminosity: within tolerance of the PDF formula by the
-   oracle of the harness (partial here: set_sat_matches_pdf + set_lum_matches_pdf_without_clipping are the
-   proved parts; the composition through a clipping _clip_color with its 1e-9 is not proved) *)
+(* with clipping: _clip_color (1e-9 in both denominators, two final clamps) stays within 2e-8 of PDF ClipColor
+   for every colour whose luminosity is in [0,1]; so color and luminosity match the PDF formulas on the whole cube *)
+Theorem clip_color_matches_pdf : forall c : rgb NR, 0 <= lum NR c <= 1 ->
+  close3 1 (20 * e9) (clip_color NR c) (s_clip_color c).
+Proof. exact clip_color_close. Qed.
+Print Assumptions clip_color_matches_pdf.
+Theorem formula_color_everywhere : forall cb cs : rgb NR, unit3 cb ->
+  close3 1 (20 * e9) (color_rgb NR cb cs) (s_color cb cs).
+Proof. exact formula_color. Qed.
+Print Assumptions formula_color_everywhere.
+Theorem formula_luminosity_everywhere : forall cb cs : rgb NR, unit3 cs ->
+  close3 1 (20 * e9) (luminosity_rgb NR cb cs) (s_luminosity cb cs).
+Proof. exact formula_luminosity. Qed.
+Print Assumptions formula_luminosity_everywhere.
+Example unit3_inhabited : unit3 (1/4, 1/2, 3/4) /\ 0 <= lum NR (-1/10, 1/2, 11/10) <= 1.
+Proof. munfold. unfold unit3, unit. lra. Qed.
+(* hue / saturation: formula_*_partial -- proved parts are set_sat_matches_pdf (the SetSat stage) and
+   clip_color_matches_pdf / set_lum (the SetLum stage, for the same argument); missing is the Lipschitz continuity
+   of PDF SetLum that would compose the two bounds.  Their closeness to the PDF formula on the generated inputs is
+   checked by the harness oracle (tolerance 2e-5 + 1e-7/(Cmax-Cmin)). *)
 
 (* ================================================================= CMYK wrapper *)
 Theorem cmyk_K_is_always_the_source_K : forall (m : nonsep_mode) (cb cs : cmyk NR),
